@@ -53,7 +53,7 @@ class Unit:
     def __init__(self, name, check, strategy=None, enumerate=None, quick=200,
                  thorough=5000, shards_quick=4, shards_thorough=16,
                  essential=(), essential_min=0.02, doc="", exhaustive=False,
-                 stdout="sink", max_shrink_s=120):
+                 stdout="sink", max_shrink_s=120, shrink=True):
         self.name = name
         self.check = check
         self.strategy = strategy      # callable -> hypothesis strategy (lazy)
@@ -68,6 +68,7 @@ class Unit:
         self.exhaustive = exhaustive
         self.stdout = stdout
         self.max_shrink_s = max_shrink_s
+        self.shrink = shrink          # False for units whose cases cost a sub-process each: report the first failure as found
 
 
 def derive_seed(*parts):
@@ -190,7 +191,7 @@ def _run_task(task):
                 report_multiple_bugs=False, print_blob=False,
                 suppress_health_check=[HealthCheck.too_slow, HealthCheck.data_too_large,
                                        HealthCheck.large_base_example],
-                phases=[Phase.generate, Phase.shrink],
+                phases=[Phase.generate, Phase.shrink] if unit.shrink else [Phase.generate],
             )
             strat = unit.strategy()
             test = hypothesis.seed(derive_seed(seed, prop, unit_name, shard))(
